@@ -46,6 +46,8 @@ func c11Configs() []*world.Config {
 		world.UintCfg(2, urange(1, 5), 2, B, "tiny2"),
 		// struct keys: ordered and layered through the user marshaler (every marshal call is a scheduling point)
 		world.StructCfg(2, []uint8{0, 1, 0, 0}, B, "big"),
+		// branch factor 4: leaves with several entries whose slices have spare capacity after late inserts
+		world.UintCfg(4, ulist(1, 2, 3, 4, 5, 8, 9), 2, B, "big"),
 	}
 }
 
@@ -181,6 +183,8 @@ func c11Scenarios(thorough bool) []c11Scenario {
 		{1, []int{0, 1, 2, 5, 6, 7}, []int{3, 4, 5}}, // deep user-key universe: insert 40 (layer 0), 50 (layer 2), touch 60
 		{2, []int{0, 1, 2, 3, 4}, []int{1, 2}},       // evicting cache
 		{3, []int{0, 1, 3}, []int{1, 2}},             // struct keys
+		{0, []int{0, 1, 2, 3, 4}, []int{0, 1, 2}}, // uint {1..5}, height 2: deleting 2 merges the leaves [1] and [3] and the merged leaf stays in the tree
+		{4, []int{0, 1, 3, 4, 5, 6, 2}, []int{3, 1, 0}}, // bf 4, key 3 inserted last (its leaf's slices grow by append): deleting 4 merges [1 2 3] and [5]
 	}
 	for pi, pl := range plans {
 		cfg := c11Configs()[pl.cfg]
@@ -204,10 +208,30 @@ func c11Scenarios(thorough bool) []c11Scenario {
 					if !thorough && pi == 2 && capt == "clone" {
 						continue
 					}
+					if pi == 5 && !(a.Kind == "del" || a.Kind == "ins" || b.Kind == "del" || b.Kind == "ins") {
+						continue
+					}
 					if pi == 3 && (capt == "coldload" || a.Kind == "iter" || b.Kind == "iter" || a.Kind == "load" || b.Kind == "load" || a.Kind == "clone" || b.Kind == "clone" || a.Kind == "persist" || b.Kind == "persist") {
 						continue // struct keys: the point operations (each compares keys through the marshaler)
 					}
 					out = append(out, c11Scenario{Cfg: pl.cfg, Base: pl.base, Capture: capt, Seqs: [][]tOp{{a}, {b}}, Bound: bound})
+				}
+			}
+		}
+		// two modifications in a row by one thread (the second one edits what the first one built) against a reader
+		if pi >= 4 {
+			var muts []tOp
+			for _, k := range pl.keys {
+				muts = append(muts, tOp{"ins", k, 1}, tOp{"del", k, 0})
+			}
+			for _, a1 := range muts {
+				for _, a2 := range muts {
+					if a1 == a2 {
+						continue
+					}
+					for _, capt := range []string{"load", "clone"} {
+						out = append(out, c11Scenario{Cfg: pl.cfg, Base: pl.base, Capture: capt, Seqs: [][]tOp{{a1, a2}, {{Kind: "iter"}}}, Bound: 2})
+					}
 				}
 			}
 		}
